@@ -206,6 +206,24 @@ def strat_for(names):
     return strat
 
 
+def _md3_check(case, ctx):
+    from vlib.props import c19
+
+    return c19.check_walk(case, ctx)
+
+
+def _md3_strategy(tier):
+    from vlib.props import c19
+
+    return c19.strat_walk(tier)
+
+
+def _md3_desc(case):
+    from vlib.props import c19
+
+    return c19._desc(case)
+
+
 def _sub(name, dets, quick, thorough, shards=8):
     return SubCheck(
         name,
@@ -241,5 +259,8 @@ PROPERTY = {
         _sub("kdq_streaming", ["KdqTreeStreaming"], 150, 3000),
         _sub("pcacd", ["PCACD"], 100, 3000, shards=16),
         _sub("batch_detectors", ["KdqTreeBatch", "HDDDM", "CDBD", "NNDVI"], 480, 12000),
+        # MD3 (total_updates / updates_since_reset, drift only through the oracle protocol): the C19 protocol
+        # walks compare state and both counters with the protocol model after every call
+        SubCheck("md3", _md3_check, strategy=_md3_strategy, nontrivial=lambda L: "drifts>=2" in L, quick=200, thorough=4000, shards_quick=8, describe=_md3_desc),
     ],
 }
